@@ -7,6 +7,7 @@ mod c02;
 mod c03;
 mod c04;
 mod c06;
+mod c08;
 mod canon;
 mod common;
 mod enumr;
@@ -31,7 +32,7 @@ pub struct Check {
 }
 
 fn registry() -> Vec<Check> {
-	vec![c01::CHECK, c02::CHECK, c03::CHECK, c04::CHECK, c06::CHECK]
+	vec![c01::CHECK, c02::CHECK, c03::CHECK, c04::CHECK, c06::CHECK, c08::CHECK]
 }
 
 fn usage() -> ! {
